@@ -258,11 +258,20 @@ class Harness:
         for line, exp, meta, got in zip(self.lines, self.expect, self.meta, replies):
             if exp is None:
                 continue
-            ok = (set(got.split("|")) == exp) if isinstance(exp, (set, frozenset)) else (got == exp)
+            if isinstance(exp, dict):
+                ok = dict(x.split("=", 1) for x in got.split(";") if "=" in x) == exp
+                exp = show_sorted(exp)
+                got = show_sorted(dict(x.split("=", 1) for x in got.split(";") if "=" in x))
+            else:
+                ok = (set(got.split("|")) == exp) if isinstance(exp, (set, frozenset)) else (got == exp)
             if not ok:
                 mismatches.append({"request": line[:300], "real": exp if isinstance(exp, str) else sorted(exp)[:6],
                                    "model": got[:2000], **{k: v for k, v in meta.items() if k != "label"}})
         return replies, mismatches
+
+
+def show_sorted(d: dict) -> str:
+    return ";".join(f"{k}={v}" for k, v in sorted(d.items()))
 
 
 def first_difference(real: str, model: str):
@@ -291,7 +300,7 @@ def python_collisions(per_topology: list[list[tuple[str, str]]]):
     return out
 
 
-def classify_collision(name, per_topology, topologies, final_ids):
+def classify_collision(name, per_topology, topologies, final_ids, node_cache=None):
     """does the collision carry the known-finding signature?
 
     Exactly two definitions of an angle symbol, same kind and chain, whose targets are the two
@@ -300,7 +309,10 @@ def classify_collision(name, per_topology, topologies, final_ids):
     BOTH decaying; and in every topology that defines the symbol that node exists. The two
     definitions are then `Phi/Theta(momentum of H)` (= sibling of the opposite-helicity child) and
     `Phi/Theta(momentum of the decaying opposite-helicity child O)`."""
-    uses = [(i, dict(d)[name]) for i, d in enumerate(per_topology) if name in dict(d)]
+    per_topology = [d if isinstance(d, dict) else dict(d) for d in per_topology] if not all(
+        isinstance(d, dict) for d in per_topology) else per_topology
+    node_cache = {} if node_cache is None else node_cache
+    uses = [(i, d[name]) for i, d in enumerate(per_topology) if name in d]
     distinct = sorted({v for _, v in uses})
     info = {"name": name, "definitions": distinct}
     if len(distinct) != 2:
@@ -318,8 +330,9 @@ def classify_collision(name, per_topology, topologies, final_ids):
     if len(th) < 2 or len(to) < 2:
         return False, info
     for i, _ in uses:
-        nodes = [(ch, h[1], o[1]) for ch, h, o in corr.PySpec(topologies[i]).nodes()]
-        if (c1, th, to) not in nodes:
+        if i not in node_cache:
+            node_cache[i] = {(ch, h[1], o[1]) for ch, h, o in corr.PySpec(topologies[i]).nodes()}
+        if (c1, th, to) not in node_cache[i]:
             return False, info
     info.update({"helicity_child": sorted(th), "decaying_opposite_helicity_child": sorted(to),
                  "frames": [sorted(s) for s in c1]})
@@ -514,6 +527,33 @@ class C07Property:
         # a long cascade with two-digit final-state ids: the names concatenate the decimal digits
         big = corr.random_isobar_topology(rng, 12, shuffle_ids=True)
         h.per_topology(parser, h.add_topology(big, "two-digit-ids"), bad_ids=())
+        # outside the theorems' hypothesis (ids < 10): what the real code does with two-digit ids —
+        # two 13-body cascades: the resonance (0,12) of one and the subsystem (0,1,2) of the other are both named m_012
+        try:
+            probe = {}
+            for label, pair in (("a", (0, 12)), ("b", (1, 2))):
+                rest = [i for i in range(13) if i not in pair and i != 0] + ([0] if 0 not in pair else [])
+                edges = {-1: (None, 0), pair[0]: (11, None), pair[1]: (11, None)}
+                # cascade: node k decays into final state rest[k] and the next node; the last into the pair
+                for k, fs in enumerate(rest):
+                    edges[fs] = (k, None)
+                    edges[100 + k] = (k, k + 1)
+                t = corr.make_topology(edges)
+                names = dict(corr.real_masses(parser, t))
+                probe[label] = {"innermost_resonance": list(pair), "m_012": names.get("m_012")}
+            chk.info("two_digit_id_probe", {**probe, "note": "outside the hypothesis ids < 10 of C07_mass/C07_injective: "
+                                            "the same name for two different sets (recorded, not judged: the property quantifies over 2..5 final states)"})
+        except Exception as e:  # noqa: BLE001
+            chk.info("two_digit_id_probe", f"{type(e).__name__}: {e}"[:200])
+        # thorough: ALL permuted six-body topologies (descriptors only; no per-edge queries)
+        six = None
+        if tier == "thorough":
+            _, tops6, _ = corr.all_permuted_topologies(6)
+            idx6 = [h.add_topology(t, "perm6") for t in tops6]
+            for i in idx6:
+                h.per_topology(parser, i, edge_queries=False)
+            dist["permuted_topologies"][6] = len(tops6)
+            six = (tops6, idx6)
         # merge in the adapter's own iteration order, collisions
         for n, (adapter, tops, idx, _, exact_order) in groups.items():
             try:
@@ -546,6 +586,53 @@ class C07Property:
                 for defs in per_r:
                     out.update(dict(defs))
                 h.ask("merge " + " ".join(map(str, ridx)), corr.show_dict(out.items()), what="merge-reversed", n_final=n)
+        # ---- HARDENING rules 3 and 6: fresh processes, other evaluation orders, one adapter vs
+        # single topologies, both registration orders, second call == first, hash seeds
+        plans = ([((3, 4), "reversed", "1")] if tier == "quick"
+                 else [((3, 4, 5), "reversed", "0"), ((3, 4, 5), "shuffle:1", "4242"), ((3, 4), "forward", None)])
+        canon_index = {corr.canonical_topo(t): i for i, t in enumerate(h.topologies)}
+        iteration_orders: dict = {}
+        for n, (_, tops, idx, _, exact_order) in groups.items():
+            if exact_order:
+                iteration_orders.setdefault(n, set()).add(tuple(corr.canonical_topo(t) for t in tops))
+        history_findings: list = []
+        for n_finals, order, hseed in plans:
+            wres = corr.run_worker([n for n in n_finals if n in groups], order, hseed)
+            if "error" in wres:
+                chk.broken_correspondence("worker", wres["error"])
+                continue
+            dist.setdefault("fresh_process_workers", []).append({"n_finals": list(n_finals), "order": order, "PYTHONHASHSEED": hseed or "unset"})
+            for n_s, res in wres["n"].items():
+                n = int(n_s)
+                if "parse_abort" in res:
+                    h.parse_aborts.append({"topology": f"fresh process n={n}", "abort": res["parse_abort"]})
+                    continue
+                if "error" in res:
+                    chk.broken_correspondence("worker", {"n_final": n, "error": res["error"]})
+                    continue
+                if not res.get("second_call_equal", True):
+                    history_findings.append({"what": "create_expressions() of one adapter differs between the first and the second call", "n_final_states": n})
+                for canon, defs in res.get("per_topology", {}).items():
+                    i = canon_index.get(canon)
+                    if i is None or i not in h.real_defs:
+                        continue
+                    chk.count(("fresh-process", order, hseed, canon))
+                    mine, theirs = dict(h.real_defs[i]), {k: v for k, v in defs}
+                    if mine != theirs:
+                        k = next(k for k in sorted(set(mine) | set(theirs)) if mine.get(k) != theirs.get(k))
+                        history_findings.append({
+                            "what": "the definition of a kinematic variable depends on what was evaluated before in the process",
+                            "topology": canon, "symbol": k, "in_this_process": mine.get(k),
+                            "in_a_fresh_process": theirs.get(k), "fresh_process_order": order})
+                for it_key, mg_key, label in (("iteration", "merged", "merge-fresh-process"),
+                                              ("reversed_iteration", "reversed_merged", "merge-reversed-registration")):
+                    if it_key in res and mg_key in res and (it_key != "iteration" or res.get("exact_order")):
+                        ids_ = [canon_index.get(c) for c in res[it_key]]
+                        if None in ids_:
+                            continue
+                        iteration_orders.setdefault(n, set()).add(tuple(res[it_key]))
+                        h.ask("merge " + " ".join(map(str, ids_)), {k: v for k, v in res[mg_key]}, what=label, n_final=n)
+        chk.info("distinct_adapter_iteration_orders_observed", {n: len(v) for n, v in iteration_orders.items()})
         # random pairs/triples of random topologies with equal final states
         for _ in range({"quick": 10, "thorough": 100}[tier]):
             if len(rnd_idx) < 2:
@@ -633,12 +720,23 @@ class C07Property:
                                          "topology": corr.canonical_topo(h.topologies[m["n"]]) if m.get("n") is not None and m["n"] < len(h.topologies) else None}}))
                 break
 
+        for hf in history_findings[:3]:
+            chk.broken_correspondence("history", hf)
+            found.append(({"class": "history dependence", "what": hf["what"]}, {"input": hf}))
+        for m in mismatches:
+            if str(m.get("what", "")).startswith("merge"):
+                found.append(({"class": "merged dictionary differs from the model", "query": m.get("what")},
+                              {"input": {"request": m["request"], "real": str(m["real"])[:1500], "model": m["model"][:1500]}}))
+                break
         # ---- collisions on the real dictionaries (independent of the Lean model)
         col_stats = {}
         cache: dict = {}
         from tools.search import C07 as search
 
-        for n, (adapter, tops, idx, _, _) in groups.items():
+        col_groups = {n: (g[1], g[2]) for n, g in groups.items()}
+        if six is not None:
+            col_groups[6] = six
+        for n, (tops, idx) in col_groups.items():
             per = [h.real_defs.get(i) for i in idx]
             if any(p is None for p in per):
                 continue
@@ -646,10 +744,12 @@ class C07Property:
             col_stats[n] = len(cols)
             final_ids = sorted(tops[0].outgoing_edge_ids)
             reported_known = False
+            per_d = [dict(d) for d in per]
+            node_cache: dict = {}
             for name in cols:
-                known, info = classify_collision(name, per, tops, final_ids)
-                ia = next(i for i, d in enumerate(per) if dict(d).get(name) == cols[name][0])
-                ib = next(i for i, d in enumerate(per) if dict(d).get(name) == cols[name][1])
+                known, info = classify_collision(name, per_d, tops, final_ids, node_cache)
+                ia = next(i for i, d in enumerate(per_d) if d.get(name) == cols[name][0])
+                ib = next(i for i, d in enumerate(per_d) if d.get(name) == cols[name][1])
                 replay = {"input": {"n_final_states": n, "symbol": name, "definitions": list(cols[name]),
                                     "topology_a": corr.canonical_topo(tops[ia]), "topology_b": corr.canonical_topo(tops[ib]),
                                     **{k: v for k, v in info.items() if k not in ("name", "definitions")}}}
@@ -679,7 +779,7 @@ class C07Property:
         rng = common.rng_for(PROP_ID, seed, "oracle")
         cache: dict = {}
         bad: list[dict] = []
-        n_events = {"quick": 40, "thorough": 400}[tier] * (3 if deep else 1)
+        n_events = {"quick": 40, "thorough": 400}[tier] * (2 if deep else 1)
         tops = []
         for n in (2, 3, 4):
             tops += list(create_isobar_topologies(n))
@@ -691,19 +791,40 @@ class C07Property:
         tops += [t for t in [*extra3, *extra4] if t not in tops]
         for _ in range({"quick": 2, "thorough": 8}[tier]):
             tops.append(corr.random_isobar_topology(rng, rng.choice([3, 4, 4])))
+        # a pair of topologies that share a sub-resonance under DIFFERENT parents, evaluated one after
+        # the other in this process (HARDENING rule 3): 0 (1 (23)) and 1 (0 (23))
+        for text in ("-1:-:0 0:0:- 1:1:- 2:2:- 3:2:- 4:0:1 5:1:2", "-1:-:0 1:0:- 0:1:- 2:2:- 3:2:- 4:0:1 5:1:2"):
+            t = _topology_from_canonical(text)
+            if t not in tops:
+                tops.append(t)
+        # shapes in which BOTH children of the top node decay, in BOTH tiers: (01)(23) is among the
+        # four-body topologies above; (01)(234) and (01)((23)4) come from the five-body ones
+        five = list(create_isobar_topologies(5))
+        both_decay = [t for t in five if all(c[2] for c in corr.PySpec(t).root[2])]
+        tops += both_decay[: (1 if tier == "quick" and not deep else len(both_decay))]
         if tier == "thorough" or deep:
-            five = list(create_isobar_topologies(5))
-            tops += rng.sample(five, 2 if not deep else 3)
+            tops += [t for t in rng.sample(five, 2 if not deep else 3) if t not in tops]
             tops.append(corr.random_isobar_topology(rng, 5))
-        for t in tops:
+            _, perm5, _ = corr.all_permuted_topologies(5)
+            tops += [t for t in rng.sample(perm5, 4) if t not in tops]
+        if tier == "thorough":
+            tops.append(corr.random_isobar_topology(rng, 6))
+        for k, t in enumerate(tops):
             n_fs = len(t.outgoing_edge_ids)
             cse_modes = (True, False) if n_fs <= 4 else (True,)
-            bad += search.check_topology(chk, t, variant, rng, n_events if n_fs <= 4 else max(10, n_events // 4),
+            kinds = (*search.EVENT_KINDS, *search.EXTRA_KINDS, f"massless-at:{k}")
+            if n_fs >= 6:
+                kinds = ("generic", "boosted", f"massless-at:{k}")
+            n_ev = n_events if n_fs <= 4 else max(10, n_events // 4)
+            bad += search.check_topology(chk, t, variant, rng, n_ev, kinds=kinds,
                                          cse_modes=cse_modes, cache=cache, stats=stats)
             if len(bad) > 20:
                 break
         stats["topologies"] = len(tops)
         bad += search.check_dalitz(chk, rng, n_events * 3, cache=cache, stats=stats)
+        bad += search.check_compound_arguments(chk, rng, stats)
+        bad += search.check_invariant_mass_dtypes(chk, rng, stats, n_events)
+        bad += search.check_numbers_vs_symbols(chk, stats)
         stats["guard_probes"] = search.guard_probes(cache)
         return bad
 
@@ -747,7 +868,16 @@ MANIFEST = {
         "all isobar topologies with 2..4 (quick) / 2..5 (thorough) final states and all permutations plus seeded random "
         "topologies up to 7 final states; the Dalitz theorems are stated for one level of the chain and the isobar (01) "
         "(deeper chains and the other labellings are the same generated function by the descriptor correspondence; "
-        "numerically checked by the oracle); the name-collision of the pinned source is a KNOWN FINDING."
+        "numerically checked by the oracle); the name-collision of the pinned source is a KNOWN FINDING. Hardening (notes/"
+        "HARDENING.md): thorough also enumerates all 2700 permuted six-body topologies (descriptors + collision signature); "
+        "every run evaluates the permuted sets again in fresh processes (other evaluation order, other PYTHONHASHSEED, one "
+        "adapter vs single topologies, reversed registration order, second create_expressions() call) and compares with the "
+        "in-process results and the model; the oracle's event families keep the initial state MOVING (one extra rest-frame "
+        "family), cover both-children-decay shapes (01)(23) and (01)(234) in both tiers, a massless particle at every position "
+        "and all-massless events; Phi/Theta/InvariantMass/Energy/FourMomentumX-Z/EuclideanNorm(Squared) on compound array "
+        "expressions (folded and unfolded code, cse off/on) against plain numpy; InvariantMass of time-/space-like sums on real "
+        "and complex input arrays; the matrix classes on exact numbers vs symbols; ids >= 10 probed and recorded "
+        "(two_digit_id_probe: m_012 names both (0,12) and (0,1,2))."
     ),
     "level_note": (
         "Trusted: Lean kernel + Mathlib (axioms propext, Classical.choice, Quot.sound); the strict parser of the real "
